@@ -132,13 +132,14 @@ Context (leb : R -> R -> bool).
 
 (** the pointer tuple [vp] of the output cell [oidx] attains [value]: it is in range and the
     product of the operand entries at the pointed indices equals the value.  When a summed-out
-    index has size 0 there is no index tuple at all and every pointer is accepted. *)
+    index has size 0 there is no index tuple at all and every pointer is accepted; likewise for a
+    cell off the diagonal of a repeated output index (no consistent index tuple). *)
 Definition argmax_ok (ops : list (operand (R:=R))) (inputs : list (list nat)) (output : list nat)
                      (oidx vp : list nat) (value : R) : bool :=
   let sz := label_sizes (map fst ops) inputs in
   let summed := summed_labels inputs output in
   let sizes := map (lval sz) summed in
-  existsb (Nat.eqb 0) sizes ||
+  existsb (Nat.eqb 0) sizes || negb (out_consistent output oidx) ||
   (Nat.eqb (length vp) (length summed)
    && forallb (fun pn => fst pn <? snd pn) (combine vp sizes)
    && veqb (einsum_term o ops inputs (combine output oidx ++ combine summed vp)) value).
